@@ -1,7 +1,9 @@
 """C17 - Range and conditional requests describe exactly the bytes delivered."""
+import calendar
 import os
 import tempfile
 import shutil
+import time
 import email.utils
 
 from harness import core
@@ -23,6 +25,61 @@ class FP:
 
 DIGS = ['0', '1', '2', '3', '5', '7', '9', '10', '12', '99', '007', '1_0']
 JUNK = ['', ' ', '-', ',', '_', '+', 'a', 'x', '=', 'bytes=', '\t', '\xa0', '\x1c', '--', '1-2', 'bytes']
+
+
+# time zones the If-Modified-Since cases run under: the conversion of an HTTP date (always GMT) must not depend on
+# the zone of the process.  DST zones of both hemispheres, a zone with a half-hour offset, a POSIX rule string, and
+# Europe/Dublin, whose tzdata has NEGATIVE daylight saving (standard time in summer).
+TZS = ['UTC', 'Europe/Berlin', 'CET-1CEST,M3.5.0,M10.5.0/3', 'America/New_York', 'Australia/Sydney', 'Asia/Kolkata',
+       'Europe/Dublin']
+# file modification instants: winter, summer, and the hours around the European / US / Australian switches of 2020
+MTIMES = [1_600_000_000, 1_580_000_000, 1_594_000_000, 1585443600, 1585443600 - 1800, 1603587600, 1603587600 + 1800,
+          1583650800, 1604210400, 1586016000, 1601740800]
+IMS_DELTAS = [-86400, -3600, -3599, -1, 0, 1, 1800, 3599, 3600, 86400]
+
+
+class Zone:
+    """run a block under another TZ"""
+
+    def __init__(self, tz):
+        self.tz = tz
+
+    def __enter__(self):
+        self.old = os.environ.get('TZ')
+        if self.tz is not None:
+            os.environ['TZ'] = self.tz
+            time.tzset()
+
+    def __exit__(self, *a):
+        if self.tz is not None:
+            if self.old is None:
+                os.environ.pop('TZ', None)
+            else:
+                os.environ['TZ'] = self.old
+            time.tzset()
+
+
+def http_date(t, style=0):
+    """the three date formats of RFC 7231 7.1.1.1 for the instant t (all GMT)"""
+    g = time.gmtime(t)
+    if style == 1:      # rfc850
+        return time.strftime('%A, %d-%b-%y %H:%M:%S GMT', g)
+    if style == 2:      # asctime
+        return time.strftime('%a %b ', g) + ('%2d' % g.tm_mday) + time.strftime(' %H:%M:%S %Y', g)
+    return email.utils.formatdate(t, usegmt=True)
+
+
+def ims_fields(ims):
+    """what the model is given for an If-Modified-Since header: '~' (none / unparsable) or the fields that
+    email.utils.parsedate_tz (library) returned; None = outside the model (year out of datetime's range)"""
+    if not ims:
+        return '~'
+    ts = email.utils.parsedate_tz(ims.split(';')[0].strip())
+    if ts is None:
+        return '~'
+    if not (1 <= ts[0] <= 9999):
+        return None
+    return 'd:' + ','.join(str(x) for x in ts[:6]) + ',' + str(ts[9] or 0)
 
 
 def gen_header(rng):
@@ -53,8 +110,12 @@ def rfc_first_range(header, length):
     """RFC 7233 clipping of the FIRST range-spec of a syntactically valid header with plain
     decimal numbers; returns 'skip' when the header is not of that grammar."""
     import re
+    if header.startswith('bytes=') and '-' not in header[6:].split(',')[0]:
+        return None            # `bytes=5`, `bytes=5,0-1`, `bytes=`: the first range-spec names no range at all
     m = re.fullmatch(r'bytes=(\d*)-(\d*)((,[^,]*)*)', header)
-    if not m or (m.group(1) == '' and m.group(2) == ''):
+    if m and m.group(1) == '' and m.group(2) == '':
+        return None            # `bytes=-`: neither a position nor a suffix length
+    if not m:
         return 'skip'
     a, b = m.group(1), m.group(2)
     if a == '':
@@ -82,9 +143,12 @@ class C17(Check):
     level_note_extra = 'date parsing, stat and file stability are assumed'
     anchors = ['ombott/static_stream.py', 'ombott/common_helpers.py']
     rule = ('headers from the RFC 7233 grammar and near misses x file lengths 0..40 and around a patched small '
-            'streaming buffer x read schedules x If-Modified-Since before/equal/after mtime x GET/HEAD on real '
-            'temporary files; non-trivial = header contains "bytes=" (reaches the range arithmetic)')
-    assumptions = ['email.utils date parsing and os.stat are taken as given (parse_date result shipped to the model)',
+            'streaming buffer x read schedules x If-Modified-Since before/equal/after mtime (three HTTP date formats, own zone '
+            'offsets, junk) x modification times in winter / summer / the hours of the 2020 DST switches x the process '
+            'running under TZ = UTC, Europe/Berlin, a POSIX rule string, America/New_York, Australia/Sydney, Asia/Kolkata, '
+            'Europe/Dublin x GET/HEAD on real temporary files; HEAD against GET header for header; non-trivial = header contains "bytes=" (reaches the range arithmetic)')
+    assumptions = ['email.utils.parsedate_tz and os.stat are taken as given: the parsed fields are shipped to the model, which '
+                   'converts them like calendar.timegm (minus the date\'s zone offset); years outside 1..9999 are outside the model',
                    'the file does not change between stat and read',
                    'int() on non-ASCII decimal digits is outside the model (WSGI header strings are Latin-1)']
 
@@ -105,19 +169,24 @@ class C17(Check):
     def _teardown(self):
         shutil.rmtree(self.tmp, ignore_errors=True)
 
-    def _file(self, n):
-        p = os.path.join(self.tmp, f'f{n}.bin')
+    def _file(self, n, mtime=None):
+        mtime = self.mtime if mtime is None else mtime
+        p = os.path.join(self.tmp, f'f{n}_{mtime}.bin')
         if not os.path.exists(p):
             with open(p, 'wb') as f:
                 f.write(bytes((i * 7 + 3) % 251 for i in range(n)))
-            os.utime(p, (self.mtime, self.mtime))
+            os.utime(p, (mtime, mtime))
         return p
 
-    def _static(self, n, method, rng_hdr, ims_hdr, maxread):
-        """run the real static_file; returns (status, headers, chunks|bytes)"""
+    def _static(self, n, method, rng_hdr, ims_hdr, maxread, mtime=None, tz=None):
+        """run the real static_file (under time zone `tz`); returns (response, chunks|bytes)"""
+        with Zone(tz):
+            return self._static0(n, method, rng_hdr, ims_hdr, maxread, mtime)
+
+    def _static0(self, n, method, rng_hdr, ims_hdr, maxread, mtime):
         from ombott.ombott import Globals
         ss = self.ss
-        p = self._file(n)
+        p = self._file(n, mtime)
         env = {'REQUEST_METHOD': method, 'PATH_INFO': '/x'}
         if rng_hdr is not None:
             env['HTTP_RANGE'] = rng_hdr
@@ -143,6 +212,7 @@ class C17(Check):
 
     def corr(self, rng, n):
         self._setup()
+        self.stats = st = {}
         out = []
         try:
             gfr = self.ss.get_first_range
@@ -162,24 +232,34 @@ class C17(Check):
                 chunks = list(self.ss._file_iter_range(FP(data, sched), off, blen, mr))
                 out.append((f'range iter {hb(data[off:])} {nl(sched)} {blen} {mr}', hbl(chunks),
                             dict(kind='iter', len=L, off=off, blen=blen, maxread=mr, sched=sched[:8])))
-            for _ in range(n // 3):
+            for _ in range(n // 2):
                 L = rng.choice([0, 1, 2, 5, 7, 8, 9, 15, 16, 17, 33])
                 method = rng.choice(['GET', 'GET', 'HEAD'])
                 h = rng.choice([None, None, '']) if rng.random() < .25 else gen_header(rng)
+                mtime = rng.choice(MTIMES)
+                tz = rng.choice(TZS) if rng.random() < .6 else None
                 ims = None
-                k = rng.randrange(6)
-                if k < 3:
-                    ims = email.utils.formatdate(self.mtime + (k - 1) * rng.choice([1, 3600]), usegmt=True)
-                elif k == 3:
-                    ims = rng.choice(['junk', '0', 'Thu, 99 Foo 2020'])
+                k = rng.randrange(8)
+                if k < 5:       # a date around the modification time, in one of the three HTTP date formats
+                    t = mtime + rng.choice(IMS_DELTAS)
+                    ims = http_date(t, rng.choice([0, 0, 0, 1, 2]))
+                    if rng.random() < .1:
+                        ims += rng.choice(['; length=5', ' ', ';'])
+                elif k == 5:    # a date carrying its own zone offset (parsedate_tz honours it)
+                    t = mtime + rng.choice(IMS_DELTAS)
+                    off = rng.choice([-5, 1, 2, 10])
+                    ims = time.strftime('%a, %d %b %Y %H:%M:%S ', time.gmtime(t + off * 3600)) + '%+03d00' % off
+                elif k == 6:
+                    ims = rng.choice(['junk', '0', 'Thu, 99 Foo 2020', 'Thu, 01 Jan 1970 00:00:00 GMT',
+                                      'Fri, 31 Dec 9999 23:59:59 GMT', 'Sun, 30 Feb 2020 25:61:61 GMT'])
                 mr = rng.choice([1, 2, 4, 8, 16, 1 << 20])
-                r, chunks = self._static(L, method, h, ims, mr)
-                from ombott.common_helpers import parse_date
-                ims_v = parse_date(ims.split(';')[0].strip()) if ims else None
-                ims_m = None if ims_v is None else int(ims_v) if ims_v == int(ims_v) else None
-                if ims_v is not None and ims_m is None:
+                fields = ims_fields(ims)
+                if fields is None:
                     continue
+                r, chunks = self._static(L, method, h, ims, mr, mtime, tz)
+                st['tz_' + str(tz)] = st.get('tz_' + str(tz), 0) + 1
                 sc = r.status_code
+                st[f'static_{sc}'] = st.get(f'static_{sc}', 0) + 1
                 if sc == 304:
                     ans = '304'
                 elif sc == 416:
@@ -190,29 +270,71 @@ class C17(Check):
                 else:
                     body = '~' if method == 'HEAD' else hb(chunks)
                     ans = f'{sc} cl={r.headers["Content-Length"]} body={body}'
-                data = open(self._file(L), 'rb').read()
+                data = open(self._file(L, mtime), 'rb').read()
                 out.append((f'range static {hb(data)} - {1 if method == "HEAD" else 0} {opt(h, hs)} '
-                            f'{opt(ims_m)} {self.mtime} {mr}', ans,
-                            dict(kind='static', len=L, method=method, range=h, ims=ims, maxread=mr)))
+                            f'{fields} {mtime} {mr}', ans,
+                            dict(kind='static', len=L, method=method, range=h, ims=ims, maxread=mr, mtime=mtime, tz=tz)))
+            # the date arithmetic by itself against calendar.timegm
+            for _ in range(n // 3):
+                f = (rng.randint(1, 9999), rng.randint(1, 12), rng.randint(-3, 40), rng.randint(-2, 30), rng.randint(-5, 70),
+                     rng.randint(-5, 70))
+                if rng.random() < .5:
+                    f = (rng.choice([1900, 1970, 1999, 2000, 2020, 2024, 2038, 2100, 2400]), rng.choice([1, 2, 3, 12]),
+                         rng.choice([1, 28, 29, 31]), 23, 59, 59)
+                out.append(('range timegm ' + ' '.join(str(x) for x in f), f'some {calendar.timegm(f)}',
+                            dict(kind='timegm', fields=list(f))))
         finally:
             self._teardown()
         return out
 
     # ------------------------------------------------------------------
-    def _oracle(self, L, method, h, ims_delta, mr):
-        """returns None or (key, what)"""
-        ims = None if ims_delta is None else email.utils.formatdate(self.mtime + ims_delta, usegmt=True)
-        r, chunks = self._static(L, method, h, ims, mr)
-        data = open(self._file(L), 'rb').read()
-        sc = r.status_code
-        if ims_delta is not None and ims_delta >= 0:
-            if sc != 304:
-                return 'ims-not-304', f'If-Modified-Since not older than the file answered {sc}'
-            if r.body:
-                return '304-body', '304 with a body'
+    @staticmethod
+    def _expected_instant(ims):
+        """the instant an HTTP date names, computed without the code under test: HTTP dates are GMT, so it is
+        calendar.timegm of the parsed fields; None when the header is not a GMT date the library parses"""
+        if not ims:
             return None
-        if sc == 304:
-            return 'ims-304-older', '304 although the date is older than the file'
+        txt = ims.split(';')[0].strip()
+        if not txt.endswith('GMT'):
+            return None
+        try:
+            return calendar.timegm(email.utils.parsedate(txt))
+        except (TypeError, ValueError):
+            return None
+
+    @staticmethod
+    def _zone_class(tz):
+        """fingerprint part for a finding that only shows under a time zone"""
+        if tz is None:
+            return ''
+        with Zone(tz):
+            jan, jul = time.localtime(1_578_000_000), time.localtime(1_594_000_000)
+            if jan.tm_isdst == 1 and jul.tm_isdst == 0 and jan.tm_gmtoff < jul.tm_gmtoff:
+                return ':negative-dst-zone'          # e.g. Europe/Dublin: "standard" time is the summer time
+            if jan.tm_isdst or jul.tm_isdst:
+                return ':dst-zone'
+        return ':fixed-offset-zone' if tz != 'UTC' else ''
+
+    def _oracle(self, L, method, h, ims, mr, mtime=None, tz=None):
+        """returns None or (key, what); `ims` is the If-Modified-Since header text (or None)"""
+        mtime = self.mtime if mtime is None else mtime
+        r, chunks = self._static(L, method, h, ims, mr, mtime, tz)
+        data = open(self._file(L, mtime), 'rb').read()
+        sc = r.status_code
+        exp_t = self._expected_instant(ims)
+        if exp_t is not None:
+            where = f'{ims!r} vs a file modified at {email.utils.formatdate(mtime, usegmt=True)!r} (TZ={tz}, {method})'
+            if exp_t >= mtime:
+                if sc != 304:
+                    return ('ims-not-304' + self._zone_class(tz),
+                            f'If-Modified-Since {where}: not older than the file, answered {sc}')
+                if r.body:
+                    return '304-body', '304 with a body'
+                return None
+            if sc == 304:
+                return 'ims-304-older' + self._zone_class(tz), f'If-Modified-Since {where}: older than the file, answered 304'
+        elif sc == 304:
+            return None        # a date this oracle has no independent reading of
         if not h:
             if sc != 200:
                 return 'norange-status', f'no Range header answered {sc}'
@@ -253,6 +375,21 @@ class C17(Check):
             return 'range-status', f'Range header answered {sc}'
         return None
 
+    def _oracle_head_pair(self, L, h, mr):
+        """HEAD yields the same status and headers as GET (with or without a Range header), and no body"""
+        g, _ = self._static(L, 'GET', h, None, mr)
+        hd, hchunks = self._static(L, 'HEAD', h, None, mr)
+        if hasattr(g.body, 'close'):
+            g.body.close()
+        names = ['Content-Range', 'Content-Length', 'Accept-Ranges', 'Last-Modified', 'Content-Type']
+        gv = [g.status_code] + [str(g.headers.get(k)) for k in names]
+        hv = [hd.status_code] + [str(hd.headers.get(k)) for k in names]
+        if gv != hv:
+            return 'head-differs-from-get', f'Range {h!r} on {L} bytes: GET {gv} but HEAD {hv}'
+        if hchunks:
+            return 'head-body', 'HEAD with a body'
+        return None
+
     def search(self, rng, n, seeds):
         self._setup()
         findings, evals = [], 0
@@ -260,21 +397,36 @@ class C17(Check):
             cases = []
             for s in seeds:
                 if s.get('kind') == 'static':
-                    cases.append((s['len'], s['method'], s['range'], None, s['maxread']))
+                    cases.append((s['len'], s['method'], s['range'], s.get('ims'), s['maxread'], s.get('mtime'), s.get('tz')))
                 elif s.get('kind') == 'first':
-                    cases.append((s['maxlen'], 'GET', s['header'], None, 4))
+                    cases.append((s['maxlen'], 'GET', s['header'], None, 4, None, None))
             # small exhaustive grid over the RFC grammar
             vals = ['', '0', '1', '3', '6', '7', '8', '99']
             for L in range(0, 8):
                 for a in vals:
                     for b in vals:
-                        cases.append((L, 'GET', f'bytes={a}-{b}', None, 3))
+                        cases.append((L, 'GET', f'bytes={a}-{b}', None, 3, None, None))
+                # a first range-spec without '-' names no range: 416, whatever follows
+                for h in ['bytes=', 'bytes=5', 'bytes=0', 'bytes=5,0-1', 'bytes=,0-1', 'bytes=3,', 'bytes=x', 'bytes=1 2,0-0']:
+                    for m in ('GET', 'HEAD'):
+                        cases.append((L, m, h, None, 3, None, None))
+            # conditional dates x time zones x winter / summer / switch-hour modification times x GET / HEAD
+            for tz in TZS:
+                for mtime in MTIMES:
+                    for d in IMS_DELTAS:
+                        for m in ('GET', 'HEAD'):
+                            cases.append((5, m, None, http_date(mtime + d, 0), 4, mtime, tz))
+                    cases.append((5, 'GET', None, http_date(mtime, 1), 4, mtime, tz))
+                    cases.append((5, 'GET', None, http_date(mtime + 1800, 2), 4, mtime, tz))
+                    cases.append((5, 'GET', 'bytes=0-1', http_date(mtime, 0), 4, mtime, tz))
             for _ in range(n // 4):
                 L = rng.choice([0, 1, 2, 5, 7, 8, 9, 15, 16, 17, 33])
+                mtime = rng.choice(MTIMES)
+                d = rng.choice([None, None, None] + IMS_DELTAS)
                 cases.append((L, rng.choice(['GET', 'HEAD']),
                               rng.choice([None, gen_header(rng), gen_header(rng)]),
-                              rng.choice([None, None, None, -3600, -1, 0, 1, 3600]),
-                              rng.choice([1, 2, 4, 8, 16, 1 << 20])))
+                              None if d is None else http_date(mtime + d, rng.choice([0, 0, 1, 2])),
+                              rng.choice([1, 2, 4, 8, 16, 1 << 20]), mtime, rng.choice([None] + TZS)))
             for c in cases:
                 evals += 1
                 try:
@@ -283,15 +435,48 @@ class C17(Check):
                     bad = ('exception', f'{type(e).__name__}: {e}')
                 if bad:
                     findings.append(Finding(f'C17:{bad[0]}', bad[1],
-                                            dict(len=c[0], method=c[1], range=c[2], ims_delta=c[3], maxread=c[4])))
+                                            dict(len=c[0], method=c[1], range=c[2], ims=c[3], maxread=c[4], mtime=c[5], tz=c[6])))
+            # HEAD against GET, header for header
+            pairs = [(L, f'bytes={a}-{b}', 3) for L in (0, 1, 5, 8) for a in ('', '0', '3', '9') for b in ('', '0', '4', '99')]
+            pairs += [(L, h, 3) for L in (0, 5) for h in (None, '', 'bytes=5', 'bytes=', 'bytes=1-2,4-5', 'junk')]
+            pairs += [(rng.choice([0, 1, 7, 16, 33]), gen_header(rng), rng.choice([1, 4, 1 << 20])) for _ in range(n // 8)]
+            for L, h, mr in pairs:
+                evals += 1
+                try:
+                    bad = self._oracle_head_pair(L, h, mr)
+                except Exception as e:
+                    bad = ('exception', f'{type(e).__name__}: {e}')
+                if bad:
+                    findings.append(Finding(f'C17:{bad[0]}', bad[1], dict(pair=True, len=L, range=h, maxread=mr)))
         finally:
             self._teardown()
+        findings.sort(key=lambda f: len(repr(f.replay)))
         return evals, findings
 
     def replay(self, data):
+        i = data.get('input')
+        if not isinstance(i, dict):
+            return dict(note='no input in this replay file (proof obligation): see "theorem" / "build_log" in it')
+        out = dict(input=i)
+        if data.get('line'):
+            out.update(line=data['line'], recorded_impl=data.get('observed_impl'), recorded_model=data.get('observed_model'))
         self._setup()
         try:
-            i = data['input']
-            return dict(input=i, oracle=self._oracle(i['len'], i['method'], i['range'], i.get('ims_delta'), i['maxread']))
+            if i.get('pair'):
+                out['oracle'] = self._oracle_head_pair(i['len'], i['range'], i['maxread'])
+            elif i.get('kind') == 'first':
+                out['get_first_range_now'] = repr(self.ss.get_first_range(i['header'], i['maxlen']))
+                out['rfc'] = repr(rfc_first_range(i['header'], i['maxlen']))
+            elif 'len' in i and 'method' in i:
+                ims = i.get('ims')
+                if ims is None and i.get('ims_delta') is not None:        # replay files written before the time-zone cases
+                    ims = http_date(self.mtime + i['ims_delta'])
+                out['expected_instant'] = self._expected_instant(ims)
+                if ims:
+                    from ombott.common_helpers import parse_date
+                    with Zone(i.get('tz')):
+                        out['parse_date_now'] = parse_date(ims.split(';')[0].strip())
+                out['oracle'] = self._oracle(i['len'], i['method'], i['range'], ims, i['maxread'], i.get('mtime'), i.get('tz'))
+            return out
         finally:
             self._teardown()
